@@ -125,12 +125,13 @@ def norm_string_jobs(prop, tier, only_fn=None):
     for i in idxs:
         nfd = len(unicodedata.normalize("NFD", SHORT[i]))
         dms = sorted({1, nfd - 1, nfd, nfd + 1, nfd + 2} - {0}) if tier == "quick" else range(1, nfd + 7)
-        succ = len(SHORT[i]) + 4  # the library needs 5 free elements per source character: the smallest dmax that succeeds
+        succ = nfd + 4  # the library needs 5 free elements per decomposed character: the smallest dmax that succeeds
+        succ0 = len(SHORT[i]) + 4  # first size at which the decomposition stage can succeed
         if tier == "quick":
-            dms = sorted(set(dms) | {succ})
+            dms = sorted(set(dms) | {succ0, succ})
         alld = sorted({1, nfd - 1, nfd, nfd + 1, nfd + 2} - {0}) if tier == "quick" else range(1, nfd + 7)
         for mode in (0, 1, 2):  # 2: the decomposition stage alone (wcsnorm_decompose_s), every size incl. Hangul
-            for d in ([x for x in dms if x < succ] if mode == 1 else dms if mode == 0 else alld):
+            for d in ([x for x in dms if x < succ0] if mode == 1 else dms if mode == 0 else alld):
                 out.append(Job("wcsnorm_s.%s.short.s%d.m%d.d%d" % (prop, i, mode, d), prop, "h_wnorm.c", NORM,
                                defines=["-I" + inc, "-DCONCRETE_PRE", "-DBOSK=%d" % (d & 1)] + (["-DDECOMP_ONLY"] if mode == 2 else []) + [ "-DSIDX=%d" % i, "-DMODE=%d" % (mode % 2), "-DDOBJ=%d" % d, "-DVH_MEMSET_WORD"],
                                models=("libc_models.c", "wide_nd_models.c", "alloc_ok_models.c"), unwind_default=24,
@@ -165,8 +166,22 @@ def fold_string_jobs(prop, tier, only_fn=None):
     return out
 
 
+def reorder_heap_jobs(prop, tier, only_fn=None):
+    """canonical reordering of 'a' + 12/23 marks: the pending-mark array is moved to the heap and grown (harness/h_alloc.c SCEN 7)"""
+    if prop != "C17" or (only_fn and only_fn != "wcsnorm_s"):
+        return []
+    from families import alloc
+    out = []
+    for n in ((12,) if tier == "quick" else (11, 12, 23)):
+        out.append(Job("wcsnorm_s.C17.reorder.heap%d" % n, "C17", "h_alloc.c", alloc.FOLD, defines=["-DSCEN=7", "-DVH_MEMSET_WORD", "-DNMARKS=%d" % n, "-DNDMAX=%d" % (n + 4)],
+                       repo_defines=alloc.WRAP, models=("libc_models.c", "wide_models.c"), unwind_default=n + 6,
+                       unwind_rules=[(r"^memcpy\.", 16 * n + 20), (r"^memset\.", 30)], memchecks=True, fn="wcsnorm_s", object_bits=16, timeout=600, mem_gb=12,
+                       bounds={"source": "'a' + %d x U+0301 (concrete)" % n, "allocation outcomes": "symbolic"}))
+    return out
+
+
 def jobs(prop, tier, only_fn=None):
-    out = fold_string_jobs(prop, tier, only_fn) + norm_string_jobs(prop, tier, only_fn)
+    out = fold_string_jobs(prop, tier, only_fn) + norm_string_jobs(prop, tier, only_fn) + reorder_heap_jobs(prop, tier, only_fn)
     if prop != "C17":
         return out
     quick = tier == "quick"
